@@ -13,6 +13,7 @@ import Snmp.Model.Ops
 import Snmp.Model.Cfg
 import Snmp.Model.Fault
 import Snmp.Model.Pyth
+import Snmp.Model.Table
 open Lean Snmp
 
 namespace Driver
@@ -346,6 +347,34 @@ def pyWrap (j : Json) : Except String Json := do
     pure (pyValToJson (Pyth.table rows))
   | _ => throw s!"bad method {m}"
 
+/-! ### tablify / table.run -/
+def cellToJson : Table.Cell → Json
+  | .idx i => toJson (#[toJson "idx", toJson i] : Array Json)
+  | .val v => toJson (#[toJson "val", valToJson v] : Array Json)
+
+def rowsToJson (r : Except Err (List Table.Row)) : Json :=
+  match r with
+  | .ok rows => toJson (#[toJson "ok", toJson (rows.map fun row => toJson (row.map fun c => toJson (#[toJson c.1, cellToJson c.2] : Array Json)))] : Array Json)
+  | .error e => toJson (#[toJson "error", errToJson e] : Array Json)
+
+def tablifyOp (j : Json) : Except String Json := do
+  pure (rowsToJson (Table.tablify (← vbsOfJson (← j.getObjVal? "vbs")) (← getNat j "n")))
+
+def tableRun (j : Json) : Except String Json := do
+  let (a, db, pol) ← agentOfJson (← j.getObjVal? "agent")
+  let oid ← oidOfJson (← j.getObjVal? "oid")
+  let kind ← j.getObjValAs? String "kind"
+  let fuel ← getNat j "fuel"
+  let x := Walk.exchangeOf a db pol
+  let (r, n) ← match kind with
+    | "table" => pure (Walk.walkGetnext x [oid] false fuel, oid.length)
+    | "bulktable" => pure (Walk.walkBulk x (← getNat j "size") [oid] fuel, oid.length + 1)
+    | k => throw s!"bad table kind {k}"
+  match r.outcome with
+  | .done => pure (rowsToJson (Table.tablify r.yields n))
+  | .error e => pure (rowsToJson (.error e))
+  | .outOfFuel => throw "out of fuel"
+
 def handle (j : Json) : Except String Json := do
   let op ← j.getObjValAs? String "op"
   match op with
@@ -361,6 +390,8 @@ def handle (j : Json) : Except String Json := do
   | "ops.run" => opsRun j
   | "cfg.run" => cfgRun j
   | "py.wrap" => pyWrap j
+  | "tablify" => tablifyOp j
+  | "table.run" => tableRun j
   | _ => throw s!"bad-op {op}"
 
 end Driver
